@@ -25,7 +25,11 @@ Obligations generated from the real source on every run (DESIGN §3 C04):
      default, cached result flows into it: c04_flow.SharedSources), decided natively by three extractions in one process;
  (i) DT-TYPED at the source: no recognised source of None reaches an int / str / bytes field at an image constructor.
 BOUNDED (never counted as proved): the native sweep (all fixtures, every accessor, repeated extractions) and the small-scope
-enumeration of hand-built content objects for iterate_units / get_full_text / iterate_images / iterate_tables.
+enumeration of hand-built content objects for iterate_units / get_full_text (iterate_images / iterate_tables: contracts since round 7).
+Round 7: (j) XlsSheet.get_table (rows computed from records) has a verified shape contract -- [] without records, else header row +
+one row per record, each with one cell per key of the first record (loop invariant + pointwise clause) -- which replaces the assumed
+opaque model; get_dim's call site sees the verified postcondition.  (k) iterate_images / iterate_tables of all 17 content classes:
+raise nothing on well-typed instances and yield only objects of classes implementing ImageInterface / TableInterface.
 """
 import ast
 
@@ -533,6 +537,61 @@ def accessor_contracts(mod):
     return out
 
 
+# ------------------------------------------- iterate_images / iterate_tables --
+ITERATORS = {"iterate_images": "ImageInterface", "iterate_tables": "TableInterface"}
+
+
+def iterator_contract(mod, cls, name, iface):
+    """Round 7 (before: only the BOUNDED small scope and the fixture sweep exercised these generators): on an instance whose
+    fields hold values of their declared types the generator raises nothing, and every value it yields is an instance of a class
+    implementing the interface the method promises (checked at each `yield` of the real body, for an arbitrary element of the
+    symbolic-length lists the loops run over).  Loops mutate nothing, so their invariant is `True`."""
+    impl = set(classes_implementing(mod, iface))
+    fnode = mod.functions[f"{cls}.{name}"]
+    nloops = sum(1 for n in ast.walk(fnode) if isinstance(n, (ast.For, ast.While)))
+
+    def check(ex, st, v):
+        k = None
+        if isinstance(v, VExt):
+            k = v.sort
+        elif isinstance(v, VRef) and st.heap.get(v.ref) is not None and st.obj(v.ref).kind == "obj":
+            k = st.obj(v.ref).cls
+        if k is not None:
+            if k in impl:
+                return z3.BoolVal(True), ""
+            if k in mod.classes:
+                return z3.BoolVal(False), f"{name}() yields a {k}, which does not implement {iface}"
+            return UNRECOGNISED, f"{name}() yields an object of unknown class {k}"
+        if v is NONE or isinstance(v, (VStr, VInt, VBool, VReal, VSeq, VTuple)) or \
+                (isinstance(v, VRef) and st.heap.get(v.ref) is not None and st.obj(v.ref).kind in ("list", "alist", "dict")):
+            return z3.BoolVal(False), f"{name}() yields {v!r}, not an object implementing {iface}"
+        return UNRECOGNISED, f"{name}() yields {v!r}: kind not recognised"
+
+    c = FnContract(
+        target=f"{DT}::{cls}.{name}",
+        params=[("self", p_ext(cls))],
+        ensures=[],
+        raises=[],
+        generator=True,
+        total=True,
+        loops={k: LoopSpec(inv=lambda lc: z3.BoolVal(True), label=f"loop{k}") for k in range(nloops)},
+        note=f"{cls}.{name}() raises nothing on a well-typed instance and yields only {iface} objects",
+    )
+    c.plain_yield = True
+    c.yield_check = check
+    c.yield_label = f"every-yielded-value-implements-{iface}"
+    return c
+
+
+def iterator_contracts(mod):
+    out = []
+    for cls in classes_implementing(mod, "ExtractionInterface"):
+        for name, iface in ITERATORS.items():
+            if f"{cls}.{name}" in mod.functions:
+                out.append(iterator_contract(mod, cls, name, iface))
+    return out
+
+
 MATCH_OF = {}        # id of a ReMatch term -> group table of its pattern
 
 
@@ -620,6 +679,7 @@ def contracts(reg):
     install_pathlib(reg)
     out.append(populate_contract())
     out.extend(accessor_contracts(mod))
+    out.extend(iterator_contracts(mod))
     install_re(reg, mod)
     out.extend(length_helper_contracts(mod))
     return out
@@ -657,7 +717,8 @@ def native_sweep(repo, tier):
 
 def content_small_scope(repo, tier):
     """BOUNDED stand-in (DESIGN 2.8) for the accessors this pack does not put under a symbolic contract (iterate_units /
-    get_full_text / iterate_images / iterate_tables of the content classes): every accessor is called natively on hand-built,
+    get_full_text of the content classes; iterate_images / iterate_tables are under `iterator_contract` since round 7 and are
+    merely exercised again here): every accessor is called natively on hand-built,
     well-typed content objects of a small scope (replay/C04.py::content_scope).  Never counted as proved."""
     import json
     import os
